@@ -530,6 +530,52 @@ func main() {
 			_, ok := ld.funcs[k]
 			fmt.Printf("%-50s found=%v props=%v\n", k, ok, allProps(sf.Funcs[k]))
 		}
+	case "uncovered":
+		// functions of the package that are neither under contract nor inlined (statically called, through callees
+		// without a contract, within the inlining depth) into a function under contract
+		ld, sf := mustLoad(opt)
+		seen := map[*ssa.Function]bool{}
+		var visit func(fn *ssa.Function, depth int)
+		visit = func(fn *ssa.Function, depth int) {
+			if fn == nil || fn.Blocks == nil || depth > 5 {
+				return
+			}
+			seen[fn] = true
+			for _, b := range fn.Blocks {
+				for _, ins := range b.Instrs {
+					if mc, ok := ins.(*ssa.MakeClosure); ok {
+						if f, ok := mc.Fn.(*ssa.Function); ok && !seen[f] && sf.Funcs[fnKey(f)] == nil {
+							visit(f, depth+1)
+						}
+					}
+					ci, ok := ins.(ssa.CallInstruction)
+					if !ok {
+						continue
+					}
+					if f := ci.Common().StaticCallee(); f != nil && !seen[f] {
+						if _, in := ld.funcs[fnKey(f)]; in && sf.Funcs[fnKey(f)] == nil {
+							visit(f, depth+1)
+						}
+					}
+				}
+			}
+		}
+		for k := range sf.Funcs {
+			if fn := ld.funcs[k]; fn != nil {
+				visit(fn, 0)
+			}
+		}
+		for _, k := range sortedKeys(ld.funcs) {
+			fn := ld.funcs[k]
+			if fn.Blocks == nil || seen[fn] || fn.Synthetic != "" {
+				continue
+			}
+			n := 0
+			for _, b := range fn.Blocks {
+				n += len(b.Instrs)
+			}
+			fmt.Printf("%-60s %4d instrs  %s\n", k, n, shortFile(ld.fset.Position(fn.Pos()).Filename))
+		}
 	case "locks":
 		// the lock-discipline obligations (C20) on their own
 		ld, sf := mustLoad(opt)
